@@ -512,6 +512,31 @@ fn sync_reader(op: &Value) -> Value {
     let mid_after = op.get("mid_after").and_then(|v| v.as_u64());
     let mut got = Vec::new();
     let mut i = 0usize;
+    if let Some(first) = op.get("exact_first").and_then(|v| v.as_u64()) {
+        // read_exact of a leading part (fails with UnexpectedEof when the stream is shorter; then nothing is taken)
+        let mut b = vec![0u8; first as usize];
+        match r.read_exact(&mut b) {
+            Ok(_) => got.extend_from_slice(&b),
+            Err(e) if e.kind() == std::io::ErrorKind::UnexpectedEof => return ok(json!({"got": bytes_json(&got), "checked": false, "short": true})),
+            Err(e) => {
+                let mut v = io_err_json(&e, "read_exact");
+                v["got"] = bytes_json(&got);
+                return v;
+            }
+        }
+    }
+    if let Some(pre) = op.get("to_end").and_then(|v| v.as_u64()) {
+        // the convenience most callers use, into a vector that already holds `pre` bytes
+        let mut v = vec![0xa5u8; pre as usize];
+        match r.read_to_end(&mut v) {
+            Ok(_) => got.extend_from_slice(&v[(pre as usize).min(v.len())..]),
+            Err(e) => {
+                let mut ev = io_err_json(&e, "read_to_end");
+                ev["got"] = bytes_json(&v[(pre as usize).min(v.len())..]);
+                return ev;
+            }
+        }
+    }
     loop {
         if Some(i as u64) == mid_after {
             env_act(&op["mid"]);
@@ -542,6 +567,19 @@ fn sync_reader(op: &Value) -> Value {
         }
         if i > 10_000_000 {
             return json!({"r":"hang","msg":"reader never reached EOF"});
+        }
+    }
+    // a caller that keeps reading after the end of the stream (a retry loop, a wrapper that polls once more): the
+    // reader must go on reporting end of file, and whatever it does hand out counts as delivered bytes
+    for _ in 0..op.get("eof_reads").and_then(|v| v.as_u64()).unwrap_or(0) {
+        let mut buf = vec![0u8; 64];
+        match r.read(&mut buf) {
+            Ok(k) => got.extend_from_slice(&buf[..k.min(64)]),
+            Err(e) => {
+                let mut v = io_err_json(&e, "read-after-eof");
+                v["got"] = bytes_json(&got);
+                return v;
+            }
         }
     }
     if op.get("check").and_then(|v| v.as_bool()) == Some(false) {
@@ -657,6 +695,14 @@ fn sync_link_to(op: &Value) -> Value {
         match l.read(&mut buf) {
             Ok(k) => got.extend_from_slice(&buf[..k.min(n)]),
             Err(e) => return io_err_json(&e, "read"),
+        }
+    }
+    if let Some(pre) = op.get("to_end").and_then(|v| v.as_u64()) {
+        // the rest through read_to_end into a vector that already holds `pre` bytes
+        let mut v = vec![0xa5u8; pre as usize];
+        match l.read_to_end(&mut v) {
+            Ok(_) => got.extend_from_slice(&v[(pre as usize).min(v.len())..]),
+            Err(e) => return io_err_json(&e, "read_to_end"),
         }
     }
     if s(op, "end") == "drop" {
